@@ -261,18 +261,17 @@ package callbacks
 //@ # Without RETURNING the driver reports one id: of the first inserted row, or of the last one (LastInsertIDReversed).
 //@ # Records that came with their own key did not consume a generated id, so the running id moves by one increment
 //@ # per record that is given a key, from the reported id: down while walking backwards, up while walking forwards.
-//@ ghost keysSet idAtLoop
+//@ ghost idGoingDown idGoingUp
 //@ event calldyn Field.Set
 //@   in callbacks.Create$1
-//@   do keysSet = keysSet + 1
+//@   do idGoingDown = idGoingDown - pkField.AutoIncrementIncrement
+//@   do idGoingUp = idGoingUp + pkField.AutoIncrementIncrement
 //@ func Create$1
 //@   tags C03
-//@   loop "i := db.Statement.ReflectValue.Len() - 1; i >= 0; i--" entry-do keysSet = 0
-//@   loop "i := db.Statement.ReflectValue.Len() - 1; i >= 0; i--" entry-do idAtLoop = insertID
-//@   loop "i := db.Statement.ReflectValue.Len() - 1; i >= 0; i--" invariant one-step-down-per-key-given: insertID == idAtLoop - keysSet * pkField.AutoIncrementIncrement
-//@   loop "i := 0; i < db.Statement.ReflectValue.Len(); i++" entry-do keysSet = 0
-//@   loop "i := 0; i < db.Statement.ReflectValue.Len(); i++" entry-do idAtLoop = insertID
-//@   loop "i := 0; i < db.Statement.ReflectValue.Len(); i++" invariant one-step-up-per-key-given: insertID == idAtLoop + keysSet * pkField.AutoIncrementIncrement
+//@   loop "i := db.Statement.ReflectValue.Len() - 1; i >= 0; i--" entry-do idGoingDown = insertID
+//@   loop "i := db.Statement.ReflectValue.Len() - 1; i >= 0; i--" invariant one-step-down-per-key-given: insertID == idGoingDown
+//@   loop "i := 0; i < db.Statement.ReflectValue.Len(); i++" entry-do idGoingUp = insertID
+//@   loop "i := 0; i < db.Statement.ReflectValue.Len(); i++" invariant one-step-up-per-key-given: insertID == idGoingUp
 //@ site generated-key-is-the-running-id
 //@   match calldyn Field.Set
 //@   in callbacks.Create$1
